@@ -155,7 +155,9 @@ class BoundedStream:
 
             self._bytes_remaining = content_length - len(self._buffer)
 
-        self._pos = len(self._buffer)
+        # NOTE: Nothing has been handed to the caller yet; the buffered first
+        #   chunk is counted when it is actually returned (or discarded).
+        self._pos = 0
 
         if first_event and self._bytes_remaining:
             # NOTE(kgriffs): Override if the event says there's no more data
@@ -237,6 +239,7 @@ class BoundedStream:
                 'This stream is closed; no further operations on it are permitted.'
             )
 
+        self._pos += len(self._buffer)
         self._buffer = b''
 
         while self._bytes_remaining > 0:
